@@ -39,7 +39,7 @@ Record sig := { s_core : score; s_emb : list score }.
 Inductive item := Top (s : sig) | Emb (c : score).
 Definition icore (i : item) : score := match i with Top s => s_core s | Emb c => c end.
 
-Definition T_GENERIC := 16.  Definition T_POSITIVE := 19.
+Definition T_GENERIC := 16.  Definition T_POSITIVE := 19.  Definition T_ATTESTATION := 22.
 Definition T_SUBKEY_BINDING := 24.  Definition T_PRIMARY_BINDING := 25.
 Definition T_DIRECT := 31.  Definition T_KEY_REV := 32.  Definition T_SUBKEY_REV := 40.  Definition T_CERT_REV := 48.
 
@@ -110,23 +110,33 @@ End Insort.
 (* ---------- user ids ---------- *)
 Record uid := { u_isuid : bool; u_content : list Z; u_sigs : list sig }.
 
-(* PGPUID.selfsig with parent label k: newest first *)
-Definition selfsig (k : Z) (u : uid) : option sig := find (fun s => c_issuer (s_core s) =? k) (rev (u_sigs u)).
-Definition uid_is_primary (k : Z) (u : uid) : bool :=
-  match selfsig k u with Some s => c_primary (s_core s) | None => false end.
+(* the signature types PGPUID.selfsig looks at: Generic_Cert 0x10, Persona_Cert 0x11, Casual_Cert 0x12, Positive_Cert 0x13 *)
+Definition is_cert_type (t : Z) : bool := (t =? 16) || (t =? 17) || (t =? 18) || (t =? 19).
+(* PGPUID.selfsig with parent label k (after repair 812bc0f): newest first, only certifications issued by the key itself;
+   a certification revocation (0x30) or an attestation (0x16) made by the key is skipped *)
+Definition selfsig (k : Z) (u : uid) : option sig :=
+  find (fun s => is_cert_type (c_type (s_core s)) && (c_issuer (s_core s) =? k)) (rev (u_sigs u)).
+(* before that repair: the newest signature of ANY type issued by the key (kept for the refutations only) *)
+Definition selfsig_old (k : Z) (u : uid) : option sig := find (fun s => c_issuer (s_core s) =? k) (rev (u_sigs u)).
+(* PGPUID.is_primary and PGPUID.__lt__ read the self-signature; `pick` is the selfsig rule (selfsig now, selfsig_old before 812bc0f) *)
+Definition uid_is_primary_with (pick : Z -> uid -> option sig) (k : Z) (u : uid) : bool :=
+  match pick k u with Some s => c_primary (s_core s) | None => false end.
 
 (* PGPUID.__lt__ *)
-Definition uid_lt (k : Z) (a b : uid) : bool :=
+Definition uid_lt_with (pick : Z -> uid -> option sig) (k : Z) (a b : uid) : bool :=
   if Bool.eqb (u_isuid a) (u_isuid b) then
-    if Bool.eqb (uid_is_primary k a) (uid_is_primary k b) then
-      match selfsig k a, selfsig k b with
+    if Bool.eqb (uid_is_primary_with pick k a) (uid_is_primary_with pick k b) then
+      match pick k a, pick k b with
       | None, None => false
       | None, Some _ => true
       | Some _, None => false
       | Some m, Some o => sig_lt o m          (* mysig > othersig  ==  othersig.__lt__(mysig) *)
       end
-    else uid_is_primary k a
+    else uid_is_primary_with pick k a
   else u_isuid a.
+Definition uid_is_primary : Z -> uid -> bool := uid_is_primary_with selfsig.
+Definition uid_lt : Z -> uid -> uid -> bool := uid_lt_with selfsig.
+Definition uid_lt_old : Z -> uid -> uid -> bool := uid_lt_with selfsig_old.
 
 (* PGPUID.__or__(signature), before the parent's resort *)
 Definition uid_or_sig (u : uid) (s : sig) : uid :=
@@ -154,6 +164,10 @@ Definition key_or_sig_prefix (l : list item) (s : sig) : list item :=
 Definition key_or_uid (k : key) (u : uid) : key :=
   {| p_label := p_label k; p_public := p_public k; p_sigs := p_sigs k;
      p_uids := insort (uid_lt (p_label k)) u (p_uids k); p_subs := p_subs k |}.
+(* the same with the identity order of the code before repair 812bc0f *)
+Definition key_or_uid_old (k : key) (u : uid) : key :=
+  {| p_label := p_label k; p_public := p_public k; p_sigs := p_sigs k;
+     p_uids := insort (uid_lt_old (p_label k)) u (p_uids k); p_subs := p_subs k |}.
 Definition key_or_uid_prefix (k : key) (u : uid) : key :=
   {| p_label := p_label k; p_public := p_public k; p_sigs := p_sigs k;
      p_uids := insort_prefix (uid_lt (p_label k)) u (p_uids k); p_subs := p_subs k |}.
@@ -326,6 +340,10 @@ Definition import : list packet -> result (list key) := import_with key_or_sig u
 (* before repair 84a9ce0 *)
 Definition import_prefix_dup : list packet -> result (list key) :=
   import_with key_or_sig uid_or_sig key_or_uid (fun s => s) (fun _ => upd_last).
+
+(* before repair 812bc0f: identities ordered through selfsig_old *)
+Definition import_old_selfsig : list packet -> result (list key) :=
+  import_with key_or_sig uid_or_sig key_or_uid_old (fun s => s) upd_cur.
 
 (* before the F9 repair *)
 Definition import_prefix_f9 : list packet -> result (list key) :=
